@@ -129,7 +129,17 @@ def rule_nop(ctx):
     for scenario in (True, False):
         for tr in run_execute(prog, "SELECT", None, nop_regexes=Lst([PAT]), variables={"V": Const("1")},
                               params=Tup([Sym("P1")]), paramstyle="pyformat", nop_match=scenario):
-            calls = [c for c in tr.hooks.nop_calls if c[1] and c[1][0] is PAT]
+            def from_pat(v):  # the configured pattern itself, or a text built from it (an alternation of all patterns ...)
+                if v is PAT:
+                    return True
+                parts = getattr(v, "parts", None)
+                if parts is not None:
+                    return any((isinstance(x, str) and PAT.v in x) or from_pat(x) for x in parts)
+                o = getattr(v, "origin", None)
+                return bool(o) and any(from_pat(x) for x in o if hasattr(x, "tag")) or (isinstance(v, Const) and isinstance(v.v, str) and PAT.v in v.v) \
+                    or PAT.v in tagof(v)
+
+            calls = [c for c in tr.hooks.nop_calls if c[1] and from_pat(c[1][0])]
             if not calls:
                 ctx.ob("C16.b", "configured pattern is consulted", False, "fakesnow/cursor.py")
                 ctx.violation("C16.b", "cursor", "FakeSnowflakeCursor.execute", "nop_regexes not consulted", "fakesnow/cursor.py",
@@ -166,6 +176,17 @@ def rule_nop(ctx):
                                   "a statement that does not match any nop_regexes pattern is not executed normally")
     ctx.floor("C16.b matching paths", n_match, 1)
     ctx.floor("C16.b non-matching paths", n_nomatch, 1)
+    # an empty list of patterns configures nothing: every statement takes the normal path
+    n_empty = 0
+    for tr in run_execute(prog, "SELECT", None, nop_regexes=Lst([]), nop_match=False):
+        n_empty += 1
+        ok = tr.hooks.parsed >= 1 and tr.engine_sql and "SUCCESS_NOP" not in tagof(tr.engine_sql[0])
+        ctx.ob("C16.b", "nop_regexes=[]: the statement takes the normal path", bool(ok), "fakesnow/cursor.py")
+        if not ok:
+            ctx.violation("C16.b", "cursor", "FakeSnowflakeCursor.execute", "empty nop_regexes list no-ops statements", "fakesnow/cursor.py",
+                          "with nop_regexes=[] a statement is answered with the success status without being run: an empty list configures no "
+                          "pattern (a pattern built by joining the list is the empty regex, which matches everything)")
+    ctx.floor("C16.b empty-list paths", n_empty, 1)
     # without the option no pattern is consulted and the statement runs normally
     for tr in run_execute(prog, "SELECT", None, nop_match=False):
         if not tr.hooks.parsed:
